@@ -14,9 +14,10 @@ RULES = {
     'R1': 'the successor function of p_stop over one loop iteration is a single 3-cycle over {LOW,MED,HIGH}',
     'R2': 'levels run in each phase are upward closed; over the cycle every level runs, HIGH >= MED >= LOW >= 1',
     'R3': 'a level run dispatches >= 1 item when its list is non-empty (to_process constant >= 1, single writer), takes the first entry; items are appended at the tail',
+    'R5': 'queued jobs are promoted to the run list on every iteration for every level, depending only on the wait list being non-empty; job/timer sources are polled in every iteration',
     'R4': 'ms_timeout is non-zero only when remaining_todo <= 0 and timer_todo <= 0; remaining_todo sums todo of all levels',
 }
-FLOORS = {'R1': 4, 'R2': 5, 'R3': 8, 'R4': 7}
+FLOORS = {'R1': 3, 'R2': 5, 'R3': 8, 'R4': 7, 'R5': 4}
 
 
 def run(ctx):
@@ -108,6 +109,7 @@ def run(ctx):
               'HIGH >= MED >= LOW opportunities (%s)' % cnt, 'a lower level gets more opportunities than a higher one: %s' % cnt)
     r3(ctx, levels)
     r4(ctx, f, rot, ix, levels, summed, polls[0], body)
+    r5(ctx, f, levels, polls[0], hdr)
 
 
 def r3(ctx, levels):
@@ -223,3 +225,49 @@ def r4(ctx, f, rot, ix, levels, summed, poll, body):
                   'remaining_todo adds todo of levels %s' % sorted(summed[v], key=str),
                   'remaining_todo only counts levels %s in phase p_stop=%d' % (sorted(summed[v], key=str), v))
     # remaining_todo is reset in every iteration before being accumulated (no stale carry-over that hides work is fine; stale >0 only spins)
+
+
+def r5(ctx, f, levels, fdpoll, hdr):
+    prog = ctx.prog
+    gm = prog.fn('get_more_jobs')
+    sp = [ev for ev in gm.calls('qb_list_splice_tail')]
+    if len(sp) != 1:
+        raise AnalysisBroken('get_more_jobs: splice sites = %d' % len(sp))
+    sp = sp[0]
+    # index variable of the level loop
+    ixs = [estr(n['i']) for n in walk(sp.args[0]) if n.get('k') == 'idx' and field_is(n['b'], 'level')]
+    if not ixs:
+        raise AnalysisBroken('get_more_jobs: level index not found')
+    iv = ixs[0]
+
+    def allowed(fb, t, lab):
+        if fb.cond is None or lab is None:
+            return True
+        c = fb.cond
+        if has_call(c, 'qb_list_empty') and any(field_is(a, 'wait_head') for n in walk(c) if n.get('k') == 'call' for a in n.get('args', [])):
+            return True
+        # the loop bound on the level index
+        u = unwrap(c)
+        return u.get('k') == 'bin' and estr(u['l']) == iv and cval(unwrap(u['r'])) is not None
+    hits, _e, _n = gm.search(('entry',), goal=lambda ev: ev is sp, edge_filter=allowed)
+    ctx.check('R5', 'promotion-only-needs-waiting-jobs', bool(hits), sp,
+              'waiting jobs are spliced to the run list whenever the wait list is non-empty',
+              'promotion of waiting jobs depends on something other than the wait list being non-empty (a busy level can starve its queued jobs)')
+    visits, _t = abstract_run(gm, {}, tracked={iv})
+    cov = {env.get(iv, 'TOP') for (ev, env) in visits if ev is sp or ev.d is sp.d}
+    ctx.check('R5', 'promotion-covers-all-levels', cov == set(levels), sp, 'promotion loop visits levels %s' % sorted(cov, key=str),
+              'promotion loop only visits levels %s' % sorted(cov, key=str))
+    # both sources polled in every iteration before the fd poll, only optional-slot guards
+    for src in ('job_source', 'timer_source'):
+        calls = [ev for ev in f.calls('qb_loop_source::poll') if src in estr(ev.e)]
+        ok = len(calls) == 1
+        if ok:
+            def not_null_edge(fb, t, lab, src=src):
+                if fb.cond is None or lab not in (True, False):
+                    return True
+                return not any(a.op == '==' and a.rc == 0 and src in a.ls for a in atoms_of(fb.cond, lab))
+            h2, _e2, _n2 = f.search(('block', hdr), goal=lambda ev: ev is fdpoll, edge_filter=not_null_edge, stop=lambda ev: ev is calls[0])
+            ok = not h2
+        ctx.check('R5', 'every-iteration-polls-%s' % src, ok, calls[0] if calls else f,
+                  '%s->poll runs in every iteration (guarded only by the slot being set)' % src,
+                  '%s->poll is skipped in some iterations' % src)
